@@ -129,6 +129,21 @@ def run(rep, facts, tier):
             ok = P.every_path_passes(None, (bb, 'term'), via_edges=notdup + spdp + noproxy + stateless, from_entry=True)
             rep.check(ok, 'R01.4', 'process_received_data/make_cache_change', 'a duplicate never reaches the topic cache',
                       'a duplicate change can be added to the topic cache: it would be handed over twice', pr.where(bb))
+    # R01.14 reception recorded (mutation triage: deleting the received_changes_add call left every rule silent, the rules above only constrain calls that exist)
+    rep.rule('R01.14', 'reception recorded: in process_received_data, once the writer proxy was found, every path that reaches make_cache_change has called '
+                       'received_changes_add(proxy, writer_sn, ..): the frontier (ack_base) only moves over recorded numbers, so an unrecorded sample is stored but never handed '
+                       'over by a reliable reader, and is requested again for ever')
+    found = [(s_, t_) for s_, t_, cond, lab in edges if cond[0] == 'discr' and lab == 'Some' and has_call(cond, 'matched_writer_mut')]
+    adds = [(bb, 'term') for bb, t in pr.calls() if call_matches(t, 'RtpsWriterProxy::received_changes_add') and og.of_operand(t['args'][1], bb, 'term') == SN and
+            has_call(og.of_operand(t['args'][0], bb, 'term'), 'matched_writer_mut')]
+    mks = [(bb, 'term') for bb, t in pr.calls() if call_matches(t, 'Reader::make_cache_change')]
+    ok = bool(found) and bool(adds) and bool(mks)
+    for s_, t_ in found:
+        for m in mks:
+            if P.can_reach((t_, 0), m, avoid_pos=adds):
+                ok = False
+    rep.check(ok, 'R01.14', 'process_received_data/reception-recorded', 'proxy found => received_changes_add(writer_sn) before make_cache_change, on every path',
+              'process_received_data can store a sample of a matched writer without recording its sequence number in the writer proxy: the reliable frontier never passes it', pr.where())
     si = fx.find('rtps::rtps_writer_proxy::RtpsWriterProxy::should_ignore_change')
     rep.analysed(si)
     ogs = Origins(si, summaries=True)
